@@ -9,7 +9,7 @@
 (*           (op = "Exit", r1 = sandbox root still exists).                *)
 (* Snapshot entries: k kind, t content as token sequence, c interned id of *)
 (* the raw content (equal ids <=> equal bytes).  The state before a call   *)
-(* is the state after the previous one (variable prev).                    *)
+(* is the state after the previous one (operator prev).                    *)
 (*                                                                         *)
 (* Verdict clauses (C29), evaluated on the real snapshots only:            *)
 (*   PreExistingPreserved, CreatedGone   (after the Exit event; one        *)
@@ -21,36 +21,35 @@ EXTENDS FsIsolationOps, TLCExt, Json, IOUtils
 
 Traces == ndJsonDeserialize(IOEnv.TRACE_FILE)
 
-VARIABLES tid, l, cur, chk,
-          prev,  \* observed state before cur: [fs, cr, x]
-          m      \* what the design model (code as is) predicts for cur: [fs, cr, res]
-vars == <<tid, l, cur, chk, prev, m>>
+VARIABLES tid, l, chk      \* trace, number of consumed events, verdict clause being checked
+vars == <<tid, l, chk>>
 
-NoEv == [op |-> "none"]
+(* the state is only a position: everything observed is read from the trace *)
+Pre == Traces[tid].pre
+cur == Traces[tid].ev[l]                                     \* the last consumed event (l > 0)
+After(e) == [fs |-> e.fs1, cr |-> e.cr1, x |-> e.x1]
+prev == IF l = 1 THEN [fs |-> Pre, cr |-> <<>>, x |-> <<>>]  \* observed state before cur
+        ELSE After(Traces[tid].ev[l - 1])
+
 Proj(f) == [x \in Paths |-> [k |-> f[x].k, t |-> f[x].t]]
 SetOf(s) == {s[i] : i \in DOMAIN s}
-After(e) == [fs |-> e.fs1, cr |-> e.cr1, x |-> e.x1]
 Observed(e) == [fs |-> Proj(e.fs1), cr |-> SetOf(e.cr1), res |-> e.res]
 Modelled(b, e) == /\ b.x = <<>> /\ e.x1 = <<>>
                   /\ \A p \in Paths : b.fs[p].k \in {"absent", "file", "dir"}
                   /\ InScope(e, Proj(b.fs))
+\* what the design model (code as is) predicts for cur: [fs, cr, res]
 Model(b, e) == IF Modelled(b, e) THEN Eff(e, Proj(b.fs), SetOf(b.cr), AsIs) ELSE Observed(e)
 
-Init == /\ tid \in 1..Len(Traces) /\ l = 0 /\ cur = NoEv /\ chk = 0 /\ m = NoEv
-        /\ prev = [fs |-> Traces[tid].pre, cr |-> <<>>, x |-> <<>>]
+Init == /\ tid \in 1..Len(Traces) /\ l = 0 /\ chk = 0
 Consume == /\ l < Len(Traces[tid].ev)
            /\ l' = l + 1
-           /\ cur' = Traces[tid].ev[l + 1]
-           /\ prev' = IF l = 0 THEN prev ELSE After(cur)
-           /\ m' = Model(prev', cur')
            /\ UNCHANGED <<tid, chk>>
 Check == /\ l = Len(Traces[tid].ev) /\ l > 0 /\ chk < 2
          /\ chk' = chk + 1
-         /\ UNCHANGED <<tid, l, cur, prev, m>>
+         /\ UNCHANGED <<tid, l>>
 Next == Consume \/ Check
 Spec == Init /\ [][Next]_vars
 
-Pre == Traces[tid].pre
 AtExit == l > 0 /\ cur.op = "Exit"
 
 (* ---- C29: verdict from the real before/after snapshots ---- *)
@@ -68,7 +67,7 @@ EndsWithExit == (chk > 0) => AtExit
 
 (* ---- conformance with the design model (code as it is): DRIFT only ---- *)
 Applies == l > 0 /\ chk = 0
-FsFollows  == Applies => Proj(cur.fs1) = m.fs
-CrFollows  == Applies => SetOf(cur.cr1) = m.cr
-ResFollows == Applies => cur.res = m.res
+FsFollows  == Applies => Proj(cur.fs1) = Model(prev, cur).fs
+CrFollows  == Applies => SetOf(cur.cr1) = Model(prev, cur).cr
+ResFollows == Applies => cur.res = Model(prev, cur).res
 =============================================================================
